@@ -7,7 +7,7 @@ from symv.dense import describe, embed, embed_vec, index_sig, is_array, is_vecto
 
 META = {
     "level": "exploration",
-    "level_text": "Differential monitoring: every public operation (and lock-step programs of up to 20 of them) is issued on a fermionic array with pending signs and on an independently synchronised twin built by the harness (new object, signs multiplied in, empty table; phase_sync is not used to build it). Paired results must have the same structure, labels and exactly equal dense values; scalars and booleans equal; for decompositions the gauge-invariant quantities (reconstruction, singular values, eigenvalue multiset, solution). phase_sync itself is checked for idempotence and value preservation. Seeded random exploration over 5 symmetries.",
+    "level_text": "Differential monitoring: every public operation (and lock-step programs of up to 20 of them) is issued on a fermionic array with pending signs and on an independently synchronised twin built by the harness (new object, signs multiplied in, empty table; phase_sync is not used to build it). Paired results must have the same structure, labels and exactly equal dense values; scalars and booleans equal; for decompositions the gauge-invariant quantities (reconstruction, singular values, eigenvalue multiset, solution). phase_sync itself is checked for idempotence and value preservation. Seeded random exploration over 5 symmetries. Later additions: half of the program steps drawn from the full operation table, derived-then-in-place independence, one-element arrays and array / array division, partners of the other class family, copy.copy / deepcopy / pickle.",
     "technique": "runtime monitoring: differential twin execution (lazy vs independently synchronised copy), lock-step programs",
     "rule": (
         "one evaluation = one operation issued on both the lazy array and its harness-synchronised twin, results compared. Sign tables are reached only through public ops "
